@@ -79,7 +79,8 @@ Print Assumptions C01_timeout_hypothesis_needed.
 (* Trace acceptor: an accepted trace is the projection of a run of the LTS (that does not use the timeout branch). *)
 Theorem C01_accept_sound :
   forall tr s, accept tr = Some s ->
-  exists es os, steps init es = Some s /\ no_timeout es = true /\ trace_obs tr = Some os /\ Forall2 obs_equiv (proj_run init es) os.
+  exists es os, steps init es = Some s /\ no_timeout es = true /\ order_safe es = true /\
+               trace_obs tr = Some os /\ Forall2 obs_equiv (proj_run init es) os.
 Proof. exact accept_sound_lemma. Qed.
 Print Assumptions C01_accept_sound.
 
